@@ -188,6 +188,25 @@ Fixpoint lifecycle_ok (fuel : nat) (p : program) (s : sim) (m : mon) (cs : list 
       end
   end.
 
+(* the same run, returning the final state and monitor (None = rejected) *)
+Fixpoint lifecycle_run (fuel : nat) (p : program) (s : sim) (m : mon) (cs : list cmd) : option (sim * mon) :=
+  match cs with
+  | [] => Some (s, m)
+  | c :: r =>
+      let '(s1, res) := do_cmd fuel p s c in
+      match mon_feed (mon_reset c res m) (new_ntfs s s1) with
+      | Some m1 => lifecycle_run fuel p s1 m1 r
+      | None => None
+      end
+  end.
+
+Definition is_endrepl (c : cmd) : bool := match c with CEndRepl => true | _ => false end.
+
+(* the warm-up event is scheduled at initialize unless the warm-up time lies
+   before the start of the replication *)
+Definition warm_scheduled (s : sim) : bool :=
+  match rep s with Some r => r_start r <=? r_warm r | None => false end.
+
 (* ------------------------------------------------------------------ *)
 (* 5. Correspondence with the implementation (harness/c04.py)           *)
 (* ------------------------------------------------------------------ *)
